@@ -3,7 +3,7 @@ from facts import AnalysisBroken
 from model import (dstr, strip, fact_holds, mentions_field, mentions_call, mentions_var,
                    mentions_enum, const_value, walk, norm_cond)
 from props.scan_common import check_active_edges, check_midbuild_targets_scheduled
-from rules import (guarded, calls_to, field_writes, who_may_write, who_may_call, atom_cmp,
+from rules import (skip_conditions_exact, loops_over, guarded, calls_to, field_writes, who_may_write, who_may_call, atom_cmp,
                    is_enum, is_var, is_field, has_field, anything, must_pass, basename)
 import cf
 
@@ -527,6 +527,20 @@ def run(ctx):
         guarded(ctx, 'C06.L1', sj, e, lambda a: mentions_field(a, 'BuildConfig::disable_jobserver_client'), False,
                 'MAKEFLAGS is consulted only when the client is not disabled', construct='jobserver-client:created-although-disabled')
     check_midbuild_targets_scheduled(ctx, 'C06.L1', prog)
+    # a console command that has ended is noticed: SIGCHLD signals coalesce (one pending signal may stand for several
+    # children), so after a SIGCHLD *every* running console subprocess is polled with waitpid(WNOHANG) - nothing but
+    # "not a console subprocess" lets an element of running_ skip TryFinish
+    cct = prog.fn('SubprocessSet::CheckConsoleProcessTerminated')
+    tf = list(cct.calls('Subprocess::TryFinish'))
+    ctx.check('C06.L1', len(tf) == 1, cct.name, 'sigchld:TryFinish-sites', cct.loc, 'one TryFinish(WNOHANG) per console subprocess')
+    for l in loops_over(cct, 'SubprocessSet::running_'):
+        for e in tf:
+            skip_conditions_exact(ctx, 'C06.L1', cct, l, lambda x, e=e: x is e,
+                                  [(lambda a: mentions_field(a, 'Subprocess::use_console_'), False)],
+                                  'after SIGCHLD every running console subprocess is polled', 'sigchld:console-subprocess-not-polled')
+    for f2, e2, kind, rhs in field_writes(prog, 'SubprocessSet::s_sigchld_received'):
+        ctx.check('C06.L1', e2.get('init') or const_value(rhs) in (0, 1), f2.name, 'sigchld:flag-carries-data', f2.where(e2),
+                  's_sigchld_received is a flag (0/1): one pending SIGCHLD can stand for several terminated children')
     # a token that becomes available is noticed: the pollfd entry DoWork looks at for the jobserver is the jobserver's
     from props.scan_common import check_pollfd_index
     npf = check_pollfd_index(ctx, 'C06.L1', prog)
@@ -576,12 +590,20 @@ def run(ctx):
         def invalidates(x, o=o):
             return x['k'] == 'asg' and mentions_field(x['l'], 'Jobserver::Slot::value_') and mentions_var(x['l'], o) and \
                 const_value(x.get('r')) == -1
-        takes = [x for x in mv.events('asg') if mentions_field(x['l'], 'Jobserver::Slot::value_') and not mentions_var(x['l'], o)
-                 and mentions_var(x.get('r'), o)]
+        from rules import origins as _origins
+        takes = [x for x in mv.stores() if mentions_field(x['l'], 'Jobserver::Slot::value_') and not mentions_var(x['l'], o)
+                 and (mentions_var(x.get('r'), o) or any(mentions_var(og, o) and mentions_field(og, 'Jobserver::Slot::value_') for og in _origins(mv, x.get('r'))))]
         ok = bool(takes)
         for t in takes:
-            # no path from taking the value to the exit that skips the invalidation
-            ok = ok and mv.find_path(t, lambda x: x['k'] in ('exit', 'ret'), is_blocker=invalidates) is None
+            # no path from taking the value to the exit that skips the invalidation ...
+            after = mv.find_path(t, lambda x: x['k'] in ('exit', 'ret'), is_blocker=invalidates) is None
+            # ... or the source was read into a temporary and invalidated before the store (`tmp = o.value_; o.value_ = -1; value_ = tmp`)
+            reads = [x for x in mv.stores() if x is not t and strip(x['l']).get('k') == 'var' and mentions_var(x.get('r'), o) and
+                     mentions_field(x.get('r'), 'Jobserver::Slot::value_')]
+            inv = [x for x in mv.events('asg') if invalidates(x)]
+            before = bool(reads) and bool(inv) and mv.find_path(None, lambda x: x is t, from_succ=mv.entry, is_blocker=invalidates) is None and \
+                all(any(mv.ev_reaches(r_, i_) and not mv.ev_reaches(i_, r_) for r_ in reads) for i_ in inv)
+            ok = ok and (after or before)
         ctx.check('C06.CF1', ok, sig, 'move:source-stays-valid', mv.loc,
                   'the move takes the token value and sets the source to the invalid value on every path')
     ctx.floor('C06.CF1', 8)
